@@ -341,6 +341,14 @@ let handle (r : reader) : unit =
         List.iter (fun ((v, wd), sh) -> out_s (" " ^ big_of_z v); out_n wd; out_n sh) f
       end else
         out_s (" " ^ big_of_z (mom_sum_zuniq q w m kvs))
+  | "R2DB" ->
+      (* R2DB k (ta tb <ranges S>)*  -> the range-2D construction as the code performs it
+         (Model/Sweep2D.v r2d_build): n (ta tb <ranges>)* *)
+      let es = next_list r (fun r -> let a = next_n r in let b = next_n r in let s = next_ranges r in ((a, b), s)) in
+      let out = r2d_build es in
+      out_s "OK";
+      out_s (" " ^ string_of_int (List.length out));
+      List.iter (fun ((a, b), s) -> out_n a; out_n b; out_ranges s) out
   | "CANON" ->
       let l = next_ranges r in
       out_s "OK";
